@@ -1,6 +1,6 @@
 \* C13 as implemented: with the two named deviations every way of breaking the property goes through one of them
 CONSTANTS NT = 1  NS = 1  PipeNames = {"s"}  NRes = 1
-          MaxRecs = 1  MaxSets = 1  MaxArgs = 2  MaxFlush = 1  MaxNull = 0  LgSet = {1}  MaxScope = 1  MaxNest = 1
+          MaxRecs = 1  MaxSets = 1  MaxArgs = 2  MaxFlush = 1  MaxNull = 0  MaxAdd = 0  LgSet = {1}  MaxScope = 1  MaxNest = 1
           NSev = 1  NBody = 2  NTs = 1  NId = 1  NFl = 1  NAK = 1  NAV = 2  MaxMap = 1  NEv = 1  NName = 1
           GenDepth = 0  Hist = FALSE
           Dev = {"eventid-without-name-crashes"}
